@@ -1308,6 +1308,10 @@ class World:
                 del g
         return Outcome("ok")
 
+    def ev_iter_end(self, ev):
+        """end of a training-loop iteration: {"k":"iter_end","id":i,"leaves":[..],"rep_of":j|None}"""
+        return Outcome("ok")
+
     def ev_sched(self, ev):
         return Outcome("ok")
 
